@@ -25,6 +25,15 @@ import (
 //     error (the tested value, fmt.Errorf/errors.New, a concrete error value) or which calls
 //     net/http.Error.
 //
+// On top of the def-use test, a path test (iErrDropPath): assuming the call returned a non-nil
+// error, every path from the call to a return must return an error that is non-nil there: the
+// failure itself (the result, or a phi node that received it and was not overwritten since),
+// another value a nil test has shown to be non-nil on that path (an earlier failure kept in a
+// "first error" variable), or a freshly made error (fmt.Errorf, errors.New). So
+// `var err error; for … { if err = f(); err != nil { continue } }; return err` is a violation:
+// the next iteration overwrites err and a later success makes the function report success.
+// Edges on which a carrier was tested to be nil are not followed.
+//
 // Flow through phi nodes is followed. An error component without any use (assigned and
 // overwritten, `_`, call used as a statement), or one that is only passed to other calls
 // (logged), is a violation. An error stored into a captured/address-taken variable is an idiom
@@ -132,6 +141,12 @@ func runApplyErr(c *Ctx) []Obligation {
 			for n, s := range sites {
 				ob := Obligation{Key: fmt.Sprintf("%s#%d", name, n+1), Pos: c.Position(s.call.Pos())}
 				ob.Status, ob.Detail = iCheckErrUse(c, s, errT)
+				if ob.Status == OK {
+					// the use exists; now no path may lose a non-nil error before it is used
+					if st, why, path := iErrDropPath(c, s, errT); st != OK {
+						ob.Status, ob.Detail, ob.Path = st, why, path
+					}
+				}
 				ob.Detail = fmt.Sprintf("error result of %s called at %s: %s", s.what, ob.Pos, ob.Detail)
 				out = append(out, ob)
 			}
@@ -293,6 +308,11 @@ func iCheckErrUse(c *Ctx, s iErrSite, errT types.Type) (string, string) {
 	if undecided != "" {
 		return Undecided, undecided
 	}
+	if uses == 0 && s.idx < 0 {
+		if v, ok := s.call.(ssa.Value); ok && (v.Referrers() == nil || len(*v.Referrers()) == 0) {
+			return Violation, "the call is used as a statement and its error is discarded; the caller sees success"
+		}
+	}
 	if uses == 0 {
 		return Violation, "the error is assigned but never used (dead or overwritten before use); the caller sees success"
 	}
@@ -453,4 +473,224 @@ func iNonNil(v, tested ssa.Value, seen map[ssa.Value]bool) int {
 		return r
 	}
 	return 2
+}
+
+// iErrDropPath explores the SSA control-flow graph from the call under the assumption that the
+// call returned a non-nil error. The state is the set of values that carry that error on the
+// path (the error component and the phi nodes that received it). A path is discharged when a
+// carrier is returned as the error result (or a non-nil error of another kind is returned, or an
+// HTTP error was written and the function has no error result), when it panics, or when a
+// carrier was just tested to be nil (edge not taken). Besides the carriers the state holds the
+// other values a nil test has shown to be non-nil on the path (an earlier error kept in a
+// "first error" variable). A path is a witness of a lost error when it reaches a return whose
+// error operand is neither a carrier nor known to be non-nil and can be nil (the nil constant, or
+// a phi node with a nil edge such as a loop variable overwritten by a later iteration).
+// Re-executing the call replaces its own result (a new obligation of the same site); the old
+// error then lives only in the phi nodes that hold it.
+func iErrDropPath(c *Ctx, s iErrSite, errT types.Type) (string, string, []string) {
+	vals := iErrValues(s)
+	callVal, _ := s.call.(ssa.Value)
+	if len(vals) == 0 || callVal == nil {
+		return OK, "", nil
+	}
+	isErrVal := map[ssa.Value]bool{}
+	for _, v := range vals {
+		isErrVal[v] = true
+	}
+	type state struct {
+		b        *ssa.BasicBlock
+		from     int // first instruction to execute
+		carriers map[ssa.Value]bool
+		nonnil   map[ssa.Value]bool // other values known to be non-nil on this path (tested)
+		http     bool
+		trail    []string
+	}
+	keyOf := func(st state) string {
+		var names []string
+		for v := range st.carriers {
+			names = append(names, v.Name())
+		}
+		sort.Strings(names)
+		var nn []string
+		for v := range st.nonnil {
+			nn = append(nn, v.Name())
+		}
+		sort.Strings(nn)
+		return fmt.Sprintf("%d/%d/%v/%s/%s", st.b.Index, st.from, st.http, strings.Join(names, ","), strings.Join(nn, ","))
+	}
+	sig := s.fn.Signature
+	hasErrResult := false
+	for i := 0; i < sig.Results().Len(); i++ {
+		if types.Identical(sig.Results().At(i).Type(), errT) {
+			hasErrResult = true
+		}
+	}
+	start := -1
+	for i, in := range s.call.Block().Instrs {
+		if in == ssa.Instruction(s.call) {
+			start = i + 1
+		}
+	}
+	if start < 0 {
+		return OK, "", nil
+	}
+	// the carriers of the first execution: the error component itself (its extract instructions
+	// follow the call in the same block); the results of later executions are never carriers
+	init := state{b: s.call.Block(), from: start, carriers: map[ssa.Value]bool{}}
+	for _, v := range vals {
+		init.carriers[v] = true
+	}
+	seen := map[string]bool{}
+	work := []state{init}
+	undecided, undecidedPath := "", []string(nil)
+	for len(work) > 0 {
+		st := work[len(work)-1]
+		work = work[:len(work)-1]
+		if k := keyOf(st); seen[k] {
+			continue
+		} else {
+			seen[k] = true
+		}
+		carriers := map[ssa.Value]bool{}
+		for v := range st.carriers {
+			carriers[v] = true
+		}
+		httpErr := st.http
+		ended := false
+		var pruned *ssa.BasicBlock   // successor not to take (the carrier is nil there)
+		var learnt ssa.Value         // value tested against nil by the block's branch …
+		var learntOn *ssa.BasicBlock // … and the successor on which it is non-nil
+		for i := st.from; i < len(st.b.Instrs) && !ended; i++ {
+			switch in := st.b.Instrs[i].(type) {
+			case *ssa.Return:
+				ended = true
+				ops := iReturnOperands(in)
+				carried, verdict := false, 1
+				for j, r := range ops {
+					if !types.Identical(sig.Results().At(j).Type(), errT) {
+						continue
+					}
+					if carriers[r] || st.nonnil[r] {
+						carried = true // the failure itself, or another error known to be non-nil on this path
+					} else if nn := iNonNil(r, nil, map[ssa.Value]bool{}); nn != 1 {
+						verdict = nn
+					}
+				}
+				switch {
+				case carried:
+				case !hasErrResult && httpErr:
+				case !hasErrResult:
+					return Violation, "the function returns at " + c.Position(in.Pos()) + " after a failed call without an error result and without writing an HTTP error", append(st.trail, "returns at "+c.Position(in.Pos()))
+				case verdict == 0:
+					return Violation, "a path from the failed call reaches the return at " + c.Position(in.Pos()) + " with an error that can be nil (the failure was overwritten or dropped on the way, e.g. by a later iteration that succeeds): the caller sees success", append(st.trail, "returns a possibly nil error at "+c.Position(in.Pos()))
+				case verdict == 2 && undecided == "":
+					undecided = "a path from the failed call reaches the return at " + c.Position(in.Pos()) + " with an error value the rule cannot relate to the failure"
+					undecidedPath = append(st.trail, "returns at "+c.Position(in.Pos()))
+				}
+			case *ssa.Panic:
+				ended = true
+			case *ssa.Store:
+				if carriers[in.Val] {
+					if ret, ok := st.b.Instrs[len(st.b.Instrs)-1].(*ssa.Return); !ok || !iReturnsAsError(ret, in.Val, errT) {
+						if undecided == "" {
+							undecided = "the error is stored into a captured or address-taken variable at " + c.Position(in.Pos()) + " (flow through memory is not followed)"
+							undecidedPath = st.trail
+						}
+						ended = true
+					}
+				}
+			case *ssa.If:
+				if bo, ok := in.Cond.(*ssa.BinOp); ok && (bo.Op == token.NEQ || bo.Op == token.EQL) {
+					x, y := bo.X, bo.Y
+					if k, isK := x.(*ssa.Const); isK && k.IsNil() {
+						x, y = y, x
+					}
+					if k, isK := y.(*ssa.Const); isK && k.IsNil() {
+						nonNilSucc, nilSucc := st.b.Succs[0], st.b.Succs[1]
+						if bo.Op == token.EQL {
+							nonNilSucc, nilSucc = nilSucc, nonNilSucc
+						}
+						if carriers[x] || st.nonnil[x] {
+							pruned = nilSucc
+						} else {
+							learnt, learntOn = x, nonNilSucc
+						}
+					}
+				}
+			default:
+				if ci, ok := in.(ssa.CallInstruction); ok {
+					if in == ssa.Instruction(s.call) {
+						// the same call again: its result is a new value
+						// (the new value is a new obligation of the same site and is not followed)
+						delete(carriers, callVal)
+						for v := range isErrVal {
+							delete(carriers, v)
+						}
+					} else if f := iCalleeOfCommon(ci.Common()); f != nil && f.Pkg() != nil && f.Pkg().Path() == "net/http" && f.Name() == "Error" {
+						httpErr = true
+					}
+				}
+			}
+		}
+		if ended {
+			continue
+		}
+		for _, succ := range st.b.Succs {
+			if succ == pruned && len(st.b.Succs) == 2 {
+				continue
+			}
+			// phi nodes of the successor
+			next := map[ssa.Value]bool{}
+			for v := range carriers {
+				next[v] = true
+			}
+			nextNN := map[ssa.Value]bool{}
+			for v := range st.nonnil {
+				nextNN[v] = true
+			}
+			if learnt != nil && succ == learntOn && st.b.Succs[0] != st.b.Succs[1] {
+				nextNN[learnt] = true
+			}
+			oldNN := map[ssa.Value]bool{}
+			for v := range nextNN {
+				oldNN[v] = true
+			}
+			edge := -1
+			for pi, pr := range succ.Preds {
+				if pr == st.b {
+					edge = pi
+				}
+			}
+			var lost []string
+			for _, in := range succ.Instrs {
+				phi, ok := in.(*ssa.Phi)
+				if !ok {
+					break
+				}
+				if edge >= 0 && carriers[phi.Edges[edge]] {
+					next[phi] = true
+				} else if next[phi] {
+					delete(next, phi)
+					lost = append(lost, phi.Comment)
+				}
+				// phi nodes are assigned in parallel: look the incoming value up in the sets as they were
+				if edge >= 0 && phi.Edges[edge] != ssa.Value(phi) {
+					if carriers[phi.Edges[edge]] || oldNN[phi.Edges[edge]] {
+						nextNN[phi] = true
+					} else {
+						delete(nextNN, phi)
+					}
+				}
+			}
+			trail := append(append([]string(nil), st.trail...), iBlockPos(c, succ)+" ("+succ.Comment+")")
+			if len(lost) > 0 {
+				trail = append(trail, "  "+strings.Join(lost, ", ")+" no longer holds the error here (overwritten)")
+			}
+			work = append(work, state{b: succ, from: 0, carriers: next, nonnil: nextNN, http: httpErr, trail: trail})
+		}
+	}
+	if undecided != "" {
+		return Undecided, undecided, undecidedPath
+	}
+	return OK, "", nil
 }
